@@ -88,6 +88,8 @@ type Step struct {
 	Sub         string `json:"sub,omitempty"`
 	Items       *Expr  `json:"items,omitempty"`
 	Parallelism *Expr  `json:"parallelism,omitempty"`
+	// NoInputKey omits the whole `input:` key of a plugin step (a corruption: the key is required).
+	NoInputKey bool `json:"no_input_key,omitempty"`
 	// SrcOverride keeps the plugin source when the step is renamed.
 	SrcOverride string `json:"src_override,omitempty"`
 }
@@ -414,7 +416,9 @@ func (p *Program) YAML() string {
 			} else {
 				b.WriteString("    step: work\n")
 			}
-			b.WriteString("    input:" + yamlValue(Obj(s.In...), 6))
+			if !s.NoInputKey {
+				b.WriteString("    input:" + yamlValue(Obj(s.In...), 6))
+			}
 			if s.StopIf != nil {
 				b.WriteString("    stop_if:" + yamlValue(s.StopIf, 6))
 			}
